@@ -35,11 +35,14 @@ class TlcResult:
     printed: list = field(default_factory=list)  # values printed by PrintT (parsed lazily by callers)
 
 
-def _java_cmd(extra_jvm=(), override=True):
+def _java_cmd(extra_jvm=(), override=True, workers=8):
     cp = f"{JAR}:{CM}"
     if override and CLASSES.is_dir():
         cp = f"{CLASSES}:{cp}"
-    return ["java", "-XX:+UseParallelGC", "-Xss16m", *extra_jvm, "-cp", cp, "tlc2.TLC"]
+    # many single-worker JVMs run side by side (simulation, trace validation): the default parallel collector starts one GC thread
+    # per core in each of them (measured: 16 concurrent simulations 115 s with the default, 22 s with a serial collector)
+    gc = ["-XX:+UseSerialGC", "-Xmx3g"] if workers <= 2 else ["-XX:+UseParallelGC", f"-XX:ParallelGCThreads={min(8, workers)}"]
+    return ["java", *gc, "-Xss16m", *extra_jvm, "-cp", cp, "tlc2.TLC"]
 
 
 def module_path_env():
@@ -51,7 +54,7 @@ def module_path_env():
 def run(tla: Path, cfg: Path, tmp: Path, *, workers=8, args=(), env=None, timeout=900, jvm=(), override=True) -> TlcResult:
     """Run TLC on tla/cfg; metadir under tmp.  Raises TlcError on machinery failure."""
     meta = tmp / ("meta_" + tla.stem + "_" + str(time.time_ns()))
-    cmd = _java_cmd((module_path_env(), *jvm), override) + [
+    cmd = _java_cmd((module_path_env(), *jvm), override, workers) + [
         "-workers", str(workers), "-metadir", str(meta), "-noGenerateSpecTE",
         "-config", str(cfg), *args, str(tla),
     ]
@@ -257,8 +260,22 @@ def printed(out: str, marker: str):
     return None if v is None else v[1]
 
 
-def _printed_tuple(out: str, marker: str):
-    i = out.find(f'"{marker}"')
+def printed_all(out: str, marker: str):
+    """Every tuple printed by PrintT(<<"marker", ...>>), in output order (multi-line values: bracket matching)."""
+    out = re.sub(r'<<\s+"' + re.escape(marker) + '"', '<<"' + marker + '"', out)   # TLC pretty-prints long values as `<< "marker",`
+    vals, pos = [], 0
+    key = f'<<"{marker}"'
+    while True:
+        i = out.find(key, pos)
+        if i < 0:
+            return vals
+        v = _printed_tuple(out, marker, i + 2)
+        vals.append(v)
+        pos = i + len(key)
+
+
+def _printed_tuple(out: str, marker: str, at: int = None):
+    i = out.find(f'"{marker}"') if at is None else at
     if i < 0:
         return None
     start = out.rfind("<<", 0, i)
